@@ -142,6 +142,9 @@ func Setup(repo string, props []string, extraPkgs []string) (*World, error) {
 			return nil, fmt.Errorf("two contracts for %s: %s:%d and %s:%d", tgt, prev.File, prev.Line, c.File, c.Line)
 		}
 		w.Contracts[tgt] = c
+		if o := tgt.Origin(); o != nil {
+			w.ByOrigin[o] = tgt
+		}
 		w.targets = append(w.targets, tgt)
 	}
 	return w, nil
@@ -290,6 +293,7 @@ func Discharge(obls []*Obligation, tmo time.Duration, workers int, dir string) [
 	// scripts are generated sequentially (term tables are not thread-safe), solved in parallel
 	scripts := make([]string, len(obls))
 	ground := make([]string, len(obls)) // quantifier-free weakening (empty if not applicable)
+	bare := make([]string, len(obls))   // quantifiers abstracted, no instances at all
 	for i, o := range obls {
 		var asserts []*smt.Term
 		if o.Vacuity {
@@ -297,7 +301,13 @@ func Discharge(obls []*Obligation, tmo time.Duration, workers int, dir string) [
 		} else {
 			asserts = []*smt.Term{o.Hyp, smt.Not(o.Goal)}
 		}
+		if smt.DebugInst {
+			fmt.Printf("=== obligation %s\n", o.Name)
+		}
 		if !o.Vacuity {
+			if b, changed := smt.AbstractQuantifiers(smt.Skolemize(asserts)); changed {
+				bare[i] = smt.Script(b, nil, false)
+			}
 			asserts = smt.Instantiate(asserts, 600)
 			if g, changed := smt.AbstractQuantifiers(asserts); changed {
 				ground[i] = smt.Script(g, nil, false)
@@ -317,7 +327,18 @@ func Discharge(obls []*Obligation, tmo time.Duration, workers int, dir string) [
 			fname := fmt.Sprintf("o%05d", i)
 			var r smt.Result
 			solved := false
-			if ground[i] != "" {
+			if bare[i] != "" {
+				quick := tmo / 4
+				if quick < 2*time.Second {
+					quick = 2 * time.Second
+				}
+				r = smt.Solve(dir, fname+"b", bare[i], quick)
+				if r.Status == "unsat" {
+					r.Backend += "+noquant"
+					solved = true
+				}
+			}
+			if !solved && ground[i] != "" {
 				r = smt.Solve(dir, fname+"g", ground[i], tmo)
 				if r.Status == "unsat" {
 					r.Backend += "+inst"
